@@ -93,6 +93,7 @@ package roundrobin
 //@   ensures keeps_uniq: rbUniq(rb)
 //@   ensures existing_no_new_record: old(rbMember(rb, u)) && result == nil ==> len(rb.servers) == old(len(rb.servers))
 //@   ensures new_record: !old(rbMember(rb, u)) && result == nil ==> len(rb.servers) == old(len(rb.servers)) + 1 && sameID(u, rb.servers[len(rb.servers)-1].url) && fresh(rb.servers[len(rb.servers)-1].url) && rb.servers[len(rb.servers)-1].origWeight == weight && rb.servers[len(rb.servers)-1].curWeight == weight
+//@   ensures {C02,C09,C10} record_url_is_private: !old(rbMember(rb, u)) && result == nil ==> fresh(rb.servers[len(rb.servers)-1].url)
 //@   ensures failure_keeps_records: result != nil ==> len(rb.servers) == old(len(rb.servers)) && (forall i int :: 0 <= i && i < len(rb.servers) ==> rb.servers[i].origWeight == old(rb.servers[i].origWeight))
 //@   ensures other_configured_weights_kept: forall i int :: 0 <= i && i < old(len(rb.servers)) && !sameID(u, rb.servers[i].url) ==> rb.servers[i].origWeight == old(rb.servers[i].origWeight)
 //@   ensures member_after: result == nil ==> rbMember(rb, u)
